@@ -813,8 +813,12 @@ func c14Short(s string) string {
 func (w *c14World) oracleLine(what string, q c14Req, r c15Resp, abs J, detail string) {
 	w.oracle++
 	shape := fmt.Sprintf("%s %s", q.Method, abs["route"].(J)["k"])
+	tail := q.Body
+	if len(tail) > 120 {
+		tail = tail[len(tail)-120:]
+	}
 	emit(J{"kind": "oracle", "what": what, "detail": detail, "shape": shape, "method": q.Method, "path": q.Path, "ctype": q.Ctype,
-		"body": c14Short(q.Body), "status": r.Status, "panic": r.Panic})
+		"body": c14Short(q.Body), "body_tail": c14S(tail), "status": r.Status, "panic": r.Panic})
 }
 
 func (e *c14Engine) finish(tag string) {
